@@ -14,6 +14,7 @@ import time
 VERIF = os.path.dirname(os.path.dirname(os.path.abspath(__file__)))
 REPO = os.environ.get('VERIF_REPO', '/repo')
 CACHE = os.path.join(VERIF, '.cache')
+KEEP_FACTS = int(os.environ.get('VERIF_KEEP_FACTS', '24'))
 DRIVER = os.path.join(VERIF, 'extractor', 'target', 'release', 'ircx')
 
 CONFIGS = {
@@ -79,6 +80,7 @@ def ensure_facts(cfg='default', verbose=False):
         hsh = tree_hash(cfg)
         out = os.path.join(CACHE, 'facts', '%s-%s.json' % (cfg, hsh))
         if os.path.exists(out) and os.path.getsize(out) > 0:
+            os.utime(out)
             return out
         target = os.path.join(CACHE, 'target', cfg)
         os.makedirs(target, exist_ok=True)
@@ -117,13 +119,21 @@ def ensure_facts(cfg='default', verbose=False):
         if nonce not in head:
             raise FactsError('facts file does not carry this run\'s nonce (stale output)')
         os.replace(tmp, out)
-        # keep the cache small: drop older facts of this configuration
+        # keep the cache small: only the most recently used facts of this configuration stay (several trees are looked at in turn
+        # when the self-tests run checks against scratch copies side by side)
+        mine = []
         for f in os.listdir(os.path.join(CACHE, 'facts')):
             if f.startswith(cfg + '-') and f != os.path.basename(out) and f.endswith('.json'):
+                q = os.path.join(CACHE, 'facts', f)
                 try:
-                    os.remove(os.path.join(CACHE, 'facts', f))
+                    mine.append((os.path.getmtime(q), q))
                 except OSError:
                     pass
+        for _, q in sorted(mine, reverse=True)[KEEP_FACTS - 1:]:
+            try:
+                os.remove(q)
+            except OSError:
+                pass
         return out
     finally:
         fcntl.flock(lock, fcntl.LOCK_UN)
